@@ -281,7 +281,7 @@ pub fn run(ctx: &Ctx) -> Report {
             let r = par_cases(ctx, "C05", "tls-handshake-ids", pairs.len() as u64, |rng, i, rep| {
                 let seqs = pairs[i as usize];
                 let id = rng.below(256) as u8;
-                let c = super::c18::TlsCase { tls13: rng.bool(), with_cert: false, server_mode: 0, user: b"u".to_vec(), cmds: vec![Cmd::ping().seq(id), Cmd::quit()], scripts: vec![], first_cut: 0, cycle: vec![], write_limit: usize::MAX, close_notify: true, raw_limit: None, hs_variant: 0, app_override: None, seqs, auth_reject: None, record_per_command: false, write_fault: None };
+                let c = super::c18::TlsCase { tls13: rng.bool(), with_cert: false, server_mode: 0, user: b"u".to_vec(), cmds: vec![Cmd::ping().seq(id), Cmd::quit()], scripts: vec![], first_cut: 0, cycle: vec![], write_limit: usize::MAX, close_notify: true, raw_limit: None, hs_variant: 0, app_override: None, seqs, auth_reject: None, record_per_command: false, write_fault: None, buffer_writes: rng.bool() };
                 let o = match super::c18::run_tls(mref, &c) {
                     Ok(o) => o,
                     Err(e) => {
